@@ -12,6 +12,9 @@
 //  3. frpc plugins http_proxy (absolute-form and CONNECT), socks5 (RFC 1928/1929 wire client) and
 //     static_file, each with user+password, password-only and user-only configurations.
 //  4. every route of the frps dashboard and the frpc admin API (and path/method mutations of them).
+//  5. request sequences on one connection (keep-alive, pipelined) and first bytes split over two TCP
+//     segments, on the http_proxy and static_file plugins, the vhost http port, tcpmux and the web
+//     servers (seq.go); socks5 sessions with split and pipelined messages. Judged per request.
 package main
 
 import (
@@ -40,6 +43,7 @@ type spec struct {
 	Socks  *socksSpec  `json:"socks5,omitempty"`
 	Static *staticSpec `json:"static_file,omitempty"`
 	Web    *webSpec    `json:"web,omitempty"`
+	Seq    *seqSpec    `json:"sequence,omitempty"`
 }
 
 // pending: what every tag of the run carried, for the end-of-run sweep over the backend logs
@@ -136,6 +140,8 @@ func main() {
 			runStatic(c, s.Static)
 		case s.Web != nil:
 			runWeb(c, s.Web)
+		case s.Seq != nil:
+			runSeq(c, s.Seq)
 		}
 	})
 
@@ -190,6 +196,8 @@ func surfaceOf(s spec) string {
 		return "plugin-static_file"
 	case s.Web != nil:
 		return "web-api"
+	case s.Seq != nil:
+		return "sequence/" + s.Seq.Surface
 	}
 	return "?"
 }
@@ -213,6 +221,7 @@ func generate() []spec {
 	out = append(out, genSocks(rng)...)
 	out = append(out, genStatic(rng)...)
 	out = append(out, genWeb(rng)...)
+	out = append(out, genSeq(run.RandFor("generate-sequences", 0))...)
 	// interleave the surfaces (the ones with a 200 ms failure delay overlap with the fast ones)
 	rng.Shuffle(len(out), func(i, j int) { out[i], out[j] = out[j], out[i] })
 	return out
